@@ -26,7 +26,12 @@ def _call_periodic(loop: asyncio.BaseEventLoop, name, interval, callback):
     start = loop.time()
 
     def run(handle, fn=callback):
-        r = fn()
+        try:
+            r = fn()
+        except BaseException:
+            # a failing callback ends the timer: it is no longer live, so .timerc has nothing to stop
+            handle.delegate = None
+            raise
         if handle.delegate is None:
             # cancelled from inside the callback
             return
